@@ -9,7 +9,19 @@ use crate::c04::{pick_form, BINARY_FNS, FORMS2, FORMS4, UNARY_FNS};
 use crate::exact::P;
 use crate::util::*;
 
-const TNAMES: [&str; 5] = ["a", "b", "c", "d", "e"];
+/// The dimension names of the case being generated: five of util's adversarial names (names the
+/// library uses internally, prefixes of one another, one-letter names, the empty name), in an
+/// order drawn from the PRNG.
+static NAMES: std::sync::Mutex<Vec<&'static str>> = std::sync::Mutex::new(Vec::new());
+
+fn case_names() -> Vec<&'static str> {
+    let n = NAMES.lock().unwrap();
+    if n.is_empty() { vec!["a", "b", "c", "d", "e"] } else { n.clone() }
+}
+
+fn new_case_names(g: &mut Gen) {
+    *NAMES.lock().unwrap() = adversarial_names(&mut g.rng, 5);
+}
 
 #[derive(Clone)]
 struct CInfo {
@@ -78,8 +90,42 @@ fn value(g: &mut Gen) -> String {
     }
 }
 
+/// the numbers of a container: now and then all equal / all zero / all one, and single values
+/// repeating their neighbour, so that behaviour keyed on particular or equal values is reached
 fn values(g: &mut Gen, n: usize) -> String {
-    (0..n).map(|_| value(g)).collect::<Vec<_>>().join(",")
+    let roll = g.rng.below(20);
+    let all = |v: String| vec![v; n].join(",");
+    match roll {
+        0 => {
+            g.count("c06.values.all_zero");
+            all("0".to_string())
+        }
+        1 => {
+            g.count("c06.values.all_one");
+            all("1".to_string())
+        }
+        2 | 3 => {
+            g.count("c06.values.all_equal");
+            let v = value(g);
+            all(v)
+        }
+        _ => {
+            g.count("c06.values.mixed");
+            let mut out: Vec<String> = vec![];
+            for k in 0..n {
+                if k > 0 && g.rng.chance(1, 6) {
+                    g.count("c06.values.equal_to_neighbour");
+                    out.push(out[k - 1].clone());
+                } else if g.rng.chance(1, 8) {
+                    g.count("c06.values.zero_or_one");
+                    out.push(if g.rng.chance(1, 2) { "0".into() } else { "1".into() });
+                } else {
+                    out.push(value(g));
+                }
+            }
+            out.join(",")
+        }
+    }
 }
 
 impl St {
@@ -134,7 +180,7 @@ impl St {
             return vec![("r", g.rng.range(1, 3)), ("c", g.rng.range(1, 3))];
         }
         let d = *g.rng.pick(&[1usize, 2, 2, 2, 2, 3]);
-        let mut names: Vec<&'static str> = TNAMES.to_vec();
+        let mut names: Vec<&'static str> = case_names();
         g.rng.shuffle(&mut names);
         (0..d).map(|k| (names[k], if d == 3 { g.rng.range(1, 2) } else { g.rng.range(1, 3) })).collect()
     }
@@ -152,7 +198,7 @@ fn candidate_views(g: &mut Gen, c: &CInfo) -> Vec<ViewSpec> {
             v.push(ViewSpec::Acc(p.clone()));
             v.push(ViewSpec::Tr(p));
         }
-        let mut names: Vec<&'static str> = TNAMES.to_vec();
+        let mut names: Vec<&'static str> = case_names();
         g.rng.shuffle(&mut names);
         v.push(ViewSpec::Rn(vec![names[0], names[1]]));
     }
@@ -387,6 +433,16 @@ fn binary_operands(st: &mut St, g: &mut Gen, op: &str, tape: usize, cross: bool,
     } else {
         Some(tape)
     };
+    // now and then both operands are one and the same container (object)
+    if !cross && va == vb && g.rng.chance(1, 5) {
+        g.count(&format!("c06.same_container_twice.{}", view_kind(&av)));
+        let bv = if av.is_basic() { av.clone() } else { ViewSpec::Own };
+        if let Some((vs, _)) = view_of(&ca.shape, &bv, ca.is_matrix) {
+            if vs == shape {
+                return ((ka, av), (ka, bv), shape);
+            }
+        }
+    }
     let (kb, bv) = operand_with_shape(st, g, ca.is_matrix, &shape, tb, b_basic || !av.is_basic(), "right");
     ((ka, av), (kb, bv), shape)
 }
@@ -433,7 +489,7 @@ fn step_matmul(st: &mut St, g: &mut Gen, tape: usize, cross: bool) {
         let shape: Sh = if is_matrix {
             vec![("r", g.rng.range(1, 3)), ("c", g.rng.range(1, 3))]
         } else {
-            let mut names: Vec<&'static str> = TNAMES.to_vec();
+            let mut names: Vec<&'static str> = case_names();
             g.rng.shuffle(&mut names);
             vec![(names[0], g.rng.range(1, 3)), (names[1], g.rng.range(1, 3))]
         };
@@ -484,7 +540,7 @@ fn step_matmul(st: &mut St, g: &mut Gen, tape: usize, cross: bool) {
         let shape: Sh = if ca.is_matrix {
             vec![("r", n), ("c", l)]
         } else {
-            let free: Vec<&'static str> = TNAMES.iter().cloned().filter(|x| *x != ashape[0].0).collect();
+            let free: Vec<&'static str> = case_names().into_iter().filter(|x| *x != ashape[0].0).collect();
             let n0 = *g.rng.pick(&free);
             let free2: Vec<&'static str> = free.iter().cloned().filter(|x| *x != n0).collect();
             vec![(n0, n), (*g.rng.pick(&free2), l)]
@@ -941,6 +997,7 @@ fn gen_case(g: &mut Gen, rat: bool) {
     g.count(&format!("c06.case.{}.tapes.{}", if rat { "rat" } else { "fp" }, ntapes));
     g.op(format!("@ tapes {} {}", ntapes, if rat { "rat" } else { "fp" }));
     let mut st = St::new(ntapes);
+    new_case_names(g);
     let steps = if rat { g.rng.range(3, 8) } else { g.rng.range(3, 12) };
     g.count(&format!("c06.case.steps.{:02}", (steps + 2) / 3 * 3));
     for _ in 0..steps {
@@ -1390,6 +1447,198 @@ fn gen_f64_boundary(g: &mut Gen) {
     }
 }
 
+/// Degenerate data and closures: user closures that panic at the k-th element (then the
+/// survivors and the tape are used again), closures capturing a separately created record of the
+/// same tape in every `map*` entry point, containers full of zeros / ones / equal values in every
+/// variable/constant mix (products with zero factors must still get their tape entries), the same
+/// container on both sides of an operation.
+fn gen_degenerate(g: &mut Gen) {
+    for kind in ["T", "M"] {
+        let (sx, n) = if kind == "T" { ("a:3", 3usize) } else { ("r:1,c:3", 3usize) };
+        let mut case = |g: &mut Gen, label: &str, lines: Vec<String>| {
+            g.count(&format!("c06.degenerate.{}.{}", kind, label));
+            g.op("@ tapes 1 fp".into());
+            let (vx, vy) = (values(g, n), values(g, n));
+            g.op(format!("vars x {} {} {} t=0", kind, sx, vx));
+            g.op(format!("vars y {} {} {} t=0", kind, sx, vy));
+            for l in lines {
+                g.op(l);
+            }
+            // the survivors and the tape after the panic
+            g.op("derivs x wrt=x,y via=all".into());
+            g.op("emul z x y".into());
+            g.op("derivs z wrt=x,y via=for".into());
+        };
+        for k in [0usize, 1, n - 1] {
+            case(g, "boom.unary", vec![format!("unary u x fn=boom.{}", k)]);
+            for (tok, via) in [("x", "assign"), ("x", "do"), ("x/ref", "assign")] {
+                case(g, "boom.uassign", vec![format!("uassign {} fn=boom.{} via={}", tok, k, via)]);
+            }
+            case(g, "boom.binary", vec![format!("binary u x y fn=boom.{}", k)]);
+            for (op, via) in [("lassign", "assign"), ("lassign", "do"), ("rassign", "assign"), ("rassign", "do")] {
+                case(g, &format!("boom.{}", op), vec![format!("{} x y fn=boom.{} via={}", op, k, via)]);
+            }
+            for via in ["map", "with_index"] {
+                case(g, "boom.map", vec![format!("map u x fn=boom.{} via={}", k, via)]);
+            }
+            for (tok, via) in [("x", "map_mut"), ("x/ref", "map_mut"), ("x/ref", "with_index"), ("x", "with_index")] {
+                case(g, "boom.mapmut", vec![format!("mapmut {} fn=boom.{} via={}", tok, k, via)]);
+            }
+        }
+        // closures capturing a record of the same tape, in every map* entry point
+        for via in ["map", "with_index"] {
+            case(g, "cap.map", vec![format!("map u x fn=cap.0 via={}", via), "derivs u wrt=x via=all".into()]);
+        }
+        for (tok, via) in [("x", "map_mut"), ("x/ref", "with_index"), ("x", "with_index")] {
+            case(g, "cap.mapmut", vec![format!("mapmut {} fn=cap.0 via={}", tok, via)]);
+        }
+        case(g, "cap.fromiter", vec![format!("fromiter u x to={} shape={} order=rm fn=cap.0", kind, sx), "derivs u wrt=x via=all".into()]);
+        // the same container (object) on both sides
+        for op in ["add", "sub"] {
+            for form in FORMS4 {
+                case(g, "same_container", vec![format!("{} u x x via={}", op, form), "derivs u wrt=x via=all".into()]);
+            }
+        }
+        for l in ["emul u x x", "ediv u x x", "binary u x x fn=psq", "emul u x/ref x/ref", "lassign x x fn=sub via=assign", "rassign x x fn=div via=do"] {
+            case(g, "same_container", vec![l.to_string(), "derivs x wrt=x via=all".into()]);
+        }
+        // zeros, ones and equal values in every variable/constant mix; matrix products with zero
+        // factors and zero rows / columns
+        let (s2, sm) = if kind == "T" { ("a:2,b:2", "b:2,c:2") } else { ("r:2,c:2", "r:2,c:2") };
+        let fills = ["0,0,0,0", "1,1,1,1", "0,1,0,0", "0,0,3,0", "5,5,5,5", "0,7,7,0"];
+        for fx in fills {
+            for fy in ["0,0,0,0", "1,0,0,1", "0,0,2,0", "5,5,5,5"] {
+                for pairing in ["var_var", "var_const", "const_var", "const_const"] {
+                    g.count(&format!("c06.degenerate.{}.zeros.{}", kind, pairing));
+                    g.op("@ tapes 1 fp".into());
+                    let (xv, yv) = (pairing.starts_with("var"), pairing.ends_with("var"));
+                    g.op(if xv { format!("vars x {} {} {} t=0", kind, s2, fx) } else { format!("consts x {} {} {}", kind, s2, fx) });
+                    g.op(if yv { format!("vars y {} {} {} t=0", kind, sm, fy) } else { format!("consts y {} {} {}", kind, sm, fy) });
+                    g.op("matmul z x y via=ref_ref".into());
+                    let wrt = match (xv, yv) {
+                        (true, true) => "x,y",
+                        (true, false) => "x",
+                        (false, true) => "y",
+                        _ => "-",
+                    };
+                    g.op(format!("derivs z wrt={} via=all", wrt));
+                    if kind == "M" {
+                        g.op("emul p x y".into());
+                        g.op("ediv q x y".into());
+                        g.op("sub d p q via=ref_ref".into());
+                        g.op(format!("derivs d wrt={} via=for", wrt));
+                    } else {
+                        g.op("sqrt p x via=ref".into());
+                        g.op("divsw q x 0 via=ref_ref".into());
+                        g.op("add d p q via=val_ref".into());
+                        g.op(format!("derivs d wrt={} via=all", if xv { "x" } else { "-" }));
+                    }
+                }
+            }
+        }
+    }
+}
+
+/// Dimension names: the library's internal names, prefixes / substrings of one another, the
+/// empty name; matmul operands whose names are in substring relation or collide; elementwise
+/// operands whose names are permutations of one another (rejected: the shapes differ).
+fn gen_names(g: &mut Gen) {
+    let pairs: [(&str, &str, &str, &str); 10] = [
+        ("row", "rows", "rows", "row"),
+        ("row", "rows", "rows", "r"),
+        ("r", "rr", "rr", "c"),
+        ("a", "aa", "aa", "ab"),
+        ("a", "ab", "ab", "a"),
+        ("_empty_", "x", "x", "xy"),
+        ("x", "_empty_", "_empty_", "x"),
+        ("column", "columns", "columns", "_empty_"),
+        ("samples", "features", "features", "samples"),
+        ("i", "j", "j", "batch"),
+    ];
+    for (l0, l1, r0, r1) in pairs {
+        g.count("c06.names.matmul");
+        g.op("@ tapes 1 fp".into());
+        let (vx, vy) = (values(g, 4), values(g, 4));
+        g.op(format!("vars x T {}:2,{}:2 {} t=0", l0, l1, vx));
+        g.op(format!("vars y T {}:2,{}:2 {} t=0", r0, r1, vy));
+        g.op("matmul z x y via=ref_ref".into());
+        g.op("derivs z wrt=x,y via=all".into());
+        // the names permuted: another shape
+        g.op(format!("vars p T {}:2,{}:2 {} t=0", l1, l0, vx));
+        g.op("add s x p via=ref_ref".into());
+        g.op("emul s x p".into());
+        g.op("lassign x p fn=add via=assign".into());
+        g.op("add s x p/acc.1.0 via=ref_ref".into());
+        g.op("derivs s wrt=x,p via=all".into());
+        g.op(format!("fromiter f x to=T shape={}:4 order=rm fn=sq", l1));
+        g.op(format!("fromiter f2 x to=T shape={}:2,{}:2 order=rm", l0, l0));
+        g.op(format!("elem e x 1,0 via=index_by.get.val"));
+        g.op(format!("elem e2 x/acc.1.0 1,0 via=mut.try.ref"));
+    }
+}
+
+/// `f64` with ±0.0, ±inf, NaN among the numbers, through every operation of the reduced
+/// vocabulary and every variable/constant mix: results and derivatives compared by bit pattern
+/// (NaN = NaN) with the same computation on scalar `Record`s.
+fn gen_f64_special(g: &mut Gen) {
+    let specials = ["0.0", "-0.0", "inf", "-inf", "NaN", "1.0", "-1.0", "2.5", "0.5", "-3.25"];
+    let ops: Vec<String> = {
+        let mut v: Vec<String> = vec![];
+        for op in ["add", "sub"] {
+            v.push(format!("{} z x y via=ref_ref", op));
+        }
+        for op in ["emul", "ediv", "matmul"] {
+            v.push(format!("{} z x y", op));
+        }
+        for f in ["psq", "axy", "div", "mul"] {
+            v.push(format!("binary z x y fn={}", f));
+        }
+        for op in ["addn", "subn", "muln", "divn", "subsw", "divsw", "pown"] {
+            for k in ["0.0", "-0.0", "inf", "2.5"] {
+                v.push(format!("{} z x {} via=ref_ref", op, k));
+            }
+        }
+        for k in ["0.0", "inf", "2.5"] {
+            v.push(format!("npow z {} x via=ref_ref", k));
+        }
+        for op in ["neg", "sin", "cos", "exp", "ln", "sqrt"] {
+            v.push(format!("{} z x via=ref", op));
+        }
+        for f in UNARY_FNS {
+            v.push(format!("unary z x fn={}", f));
+        }
+        v
+    };
+    for (kind, sx, sy) in [("T", "a:2,b:2", "b:2,c:2"), ("M", "r:2,c:2", "r:2,c:2")] {
+        for line in &ops {
+            let is_matmul = line.starts_with("matmul");
+            let binary = line.contains(" x y");
+            for pairing in ["var_var", "var_const", "const_var"] {
+                if !binary && pairing != "var_var" {
+                    continue;
+                }
+                for _ in 0..2 {
+                    g.count(&format!("c06.f64.special.{}.{}", kind, line.split(' ').next().unwrap()));
+                    g.op("@ tapes 1 f64".into());
+                    let fill = |g: &mut Gen| (0..4).map(|_| *g.rng.pick(&specials)).collect::<Vec<_>>().join(",");
+                    let (vx, vy) = (fill(g), fill(g));
+                    let (xv, yv) = (pairing.starts_with("var"), pairing.ends_with("var"));
+                    let ys = if is_matmul { sy } else { sx };
+                    g.op(if xv { format!("vars x {} {} {} t=0", kind, sx, vx) } else { format!("consts x {} {} {}", kind, sx, vx) });
+                    g.op(if yv { format!("vars y {} {} {} t=0", kind, ys, vy) } else { format!("consts y {} {} {}", kind, ys, vy) });
+                    g.op(line.clone());
+                    let wrt = match (xv, yv) {
+                        (true, true) => "x,y",
+                        (true, false) => "x",
+                        _ => "y",
+                    };
+                    g.op(format!("derivs z wrt={} via=all", wrt));
+                }
+            }
+        }
+    }
+}
+
 /// the witness of defect 11 and its mirror images, for tensors and matrices
 fn gen_constant_operand_matmul(g: &mut Gen) {
     for kind in ["T", "M"] {
@@ -1605,7 +1854,10 @@ pub fn gen(g: &mut Gen) {
     gen_every_form(g);
     gen_element_access(g);
     gen_large(g);
+    gen_degenerate(g);
+    gen_names(g);
     gen_f64_boundary(g);
+    gen_f64_special(g);
     gen_constant_operand_matmul(g);
     gen_cross_tape(g);
     gen_reset_cycles(g);
